@@ -219,7 +219,9 @@ def judge(scratch: str, case: dict, hashseeds: tuple = ('0',)) -> tuple[list[tup
 					# an interactive submission the transpiler rejects half-way: the session must go on as if it had not happened
 					# v selects where the submission fails: inside transpile (after templates were rendered) or already while loading
 					# (a parameter annotated with an undefined type fails in the preprocessors, after the entrypoint was registered)
-					a.source_provider.source_code = REJECTED_MAIN if v != 1 else REJECTED_AT_LOAD
+					# ... or, for v >= 2, at the last statement of a text that is otherwise one of the valid variants (a typo in a type annotation):
+					# everything declared before it was already registered when the load is rejected
+					a.source_provider.source_code = {0: REJECTED_MAIN, 1: REJECTED_AT_LOAD}.get(v) or case['mains'][0 if v == 2 else 1] + '\nzbad_z: UndefinedType_z = zmake()\n'
 					a.modules.unload('__main__')
 					try:
 						a.transpiler.transpile(a.modules.load('__main__').entrypoint)
